@@ -136,7 +136,10 @@ class EngineBase(PathMgr):
         self.json_closed(d, v)
         et = self.container_elem_type.get(smt.simp(d).get_id())
         if et is not None and self.is_initial_read(v):
-            self._add_axiom(z3.Or(v == smt.ABSENT, self.type_formula(v, et)))
+            if et.startswith(('list[', 'dict[')):
+                self.apply_field_type(v, et)
+            else:
+                self._add_axiom(z3.Or(v == smt.ABSENT, self.type_formula(v, et)))
         return v
 
     def link_dlen(self, r, kk) -> None:
